@@ -66,14 +66,79 @@ Definition bad_wrapper_names := filter (fun t =>
                | None => false end
   | None => false end) shipped_wrappers.
 
+(* ---- identifiers: the Go NAME under which the programmer finds a definition ----
+   Every check above keys on the id.  Two constructors of one type with the same layout
+   (messageEntityBold / messageEntityItalic), or two values of an enum (storage.fileJpeg /
+   storage.filePng), whose ids were exchanged in the Go source pass all of them; only the
+   identifier tells.  Struct type names come from the registry translator (reflection), enum
+   constant identifiers from the Go source of package telegram (harness subcommand `consts`). *)
+Definition struct_name (tid : N) : bytes := nth (N.to_nat tid) shipped_struct_names [].
+
+(* definitions whose Go identifier legitimately differs from the schema name, one by one (ids): none at HEAD *)
+Definition ident_exceptions : list N := [].
+
+Definition api_ident_mismatches := filter (fun c =>
+  negb (list_contains excluded (c_name c)) && negb (mem (c_id c) ident_exceptions) &&
+  match lookup_reg shipped (c_id c) with
+  | Some (RStruct tid) => negb (ident_names c (struct_name tid))
+  | _ => false end) api.
+Definition wrapper_ident_mismatches := filter (fun t =>
+  match get_struct shipped t with
+  | Some sd => match s_crc sd with
+               | Some k => match find (fun c => (c_id c =? k) && c_isfun c) api with
+                           | Some c => negb (ident_names c (struct_name t))
+                           | None => false end   (* no schema line: reported by bad_wrappers *)
+               | None => false end
+  | None => false end) shipped_wrappers.
+Definition wrapper_crc (t : N) : N := match get_struct shipped t with Some sd => match s_crc sd with Some k => k | None => 0 end | None => 0 end.
+Definition ident_mismatches : list N := (map c_id api_ident_mismatches ++ map wrapper_crc wrapper_ident_mismatches)%list.
+Definition const_mismatches : list N := map c_id (filter (fun c =>
+  negb (list_contains excluded (c_name c)) && negb (mem (c_id c) ident_exceptions) &&
+  match lookup_reg shipped (c_id c) with
+  | Some (REnum _) => negb (const_names c shipped_enum_consts)
+  | _ => false end) api).
+(* constants of an enum type whose value is no constructor id of the API schema *)
+Definition stray_consts : list N := map snd (filter (fun kv => negb (existsb (fun c => (c_id c =? snd kv) && negb (c_isfun c)) api)) shipped_enum_consts).
+(* information only: the service objects (package objects) are hand-written and named freely *)
+Definition mt_ident_info : list N := map c_id (filter (fun c =>
+  match lookup_reg shipped (c_id c) with
+  | Some (RStruct tid) => negb (ident_names c (struct_name tid))
+  | _ => false end) mt_wire).
+
+(* ---- exactly one: no id registered twice, no two struct types carrying one id ---- *)
+Definition reg_ids : list N := map fst (u_reg shipped).
+Definition struct_crcs : list N := flat_map (fun sd => match s_crc sd with Some k => [k] | None => [] end) shipped_structs.
+
+(* ---- a constructor is a member of its result type's Go interface ----
+   ty_agrees checks membership only where the type occurs as a PARAMETER; a type that occurs only
+   as the RESULT of methods (contacts.Contacts, ...) is reached here: for every constructor of
+   every type of the API schema, the registered struct implements exactly tl.Object and the
+   interface the generator created for the result type (none for a type with one constructor). *)
+Definition api_tbl := kind_table shipped api.
+Definition struct_ifaces (tid : N) : list N := nth (N.to_nat tid) shipped_struct_ifaces [].
+Definition needs_iface (t : bytes) : bool := match lookup_kind api_tbl t with KMulti _ => true | _ => false end.
+Definition iface_mismatches := filter (fun c =>
+  negb (c_isfun c) && negb (list_contains excluded (c_name c)) &&
+  match lookup_reg shipped (c_id c) with
+  | Some (RStruct tid) => negb (result_iface_ok shipped_ifaces (c_result c) (needs_iface (c_result c)) (struct_ifaces tid))
+  | _ => false end) api.
+(* the reflection walk saw every interface the source declares, and names identify interfaces *)
+Definition unseen_ifaces := filter (fun n => negb (list_contains shipped_ifaces n)) shipped_src_ifaces.
+Fixpoint nodup_b (l : list bytes) : bool := match l with [] => true | x :: r => negb (list_contains r x) && nodup_b r end.
+
 (* machine-readable report for ./check (printed before the theorems so that it is available when one fails) *)
 Eval vm_compute in ("C13-REPORT"%string,
   ("api_mismatch_ids", map c_id api_mismatches), ("mt_mismatch_ids", (map c_id mt_mismatches ++ map c_id mt_custom_bad)%list),
   ("bad_crc_lines", map (fun s => match parse_line false s with LDef c => c_id c | _ => 0 end) bad_ids),
   ("not_in_schema", not_in_schema), ("bad_wrappers", (bad_wrappers ++ bad_wrapper_names)%list),
   ("name_mismatch_ids", map c_id api_name_mismatches),
+  ("ident_mismatch_ids", ident_mismatches), ("const_mismatch_ids", const_mismatches), ("stray_consts", stray_consts),
+  ("mt_ident_info", mt_ident_info), ("dup_reg_ids", dups_n reg_ids), ("dup_struct_crcs", dups_n struct_crcs),
+  ("iface_mismatch_ids", map c_id iface_mismatches), ("unseen_ifaces", map (fun n => N.of_nat (length n)) unseen_ifaces),
+  ("fingerprint", [shipped_fingerprint]),
   ("counts", [N.of_nat (length api); N.of_nat (length mt); N.of_nat (length mt_wire); N.of_nat (count_bad api_parsed + count_bad mt_parsed);
-              N.of_nat (length shipped_wrappers); N.of_nat (length (u_reg shipped))])).
+              N.of_nat (length shipped_wrappers); N.of_nat (length (u_reg shipped));
+              N.of_nat (length shipped_enum_consts); N.of_nat (length shipped_ifaces); N.of_nat (length shipped_src_ifaces)])).
 
 (* ids registered although no definition of the shipped schema files accounts for them: the five
    definitions that api_121.tl carries only as comments ("exist in tl schema, but ... aren't using
@@ -107,3 +172,21 @@ Print Assumptions C13i_wrappers_match_schema.
 Theorem C13i_parameter_names_match : api_name_mismatches = [] /\ bad_wrapper_names = [].
 Proof. vm_compute. split; reflexivity. Qed.
 Print Assumptions C13i_parameter_names_match.
+
+Theorem C13i_identifiers_match : ident_mismatches = [] /\ const_mismatches = [].
+Proof. vm_compute. split; reflexivity. Qed.
+Print Assumptions C13i_identifiers_match.
+
+Theorem C13i_no_stray_constants : stray_consts = [].
+Proof. vm_compute. reflexivity. Qed.
+Print Assumptions C13i_no_stray_constants.
+
+Theorem C13i_registered_once : nodup_n reg_ids = true /\ nodup_n struct_crcs = true.
+Proof. vm_compute. split; reflexivity. Qed.
+Print Assumptions C13i_registered_once.
+
+Theorem C13i_constructors_implement_result_interface :
+  iface_mismatches = [] /\ unseen_ifaces = [] /\ nodup_b (map norm_ident shipped_ifaces) = true /\
+  length shipped_struct_ifaces = length shipped_structs /\ length shipped_struct_names = length shipped_structs.
+Proof. vm_compute. repeat split. Qed.
+Print Assumptions C13i_constructors_implement_result_interface.
